@@ -182,7 +182,7 @@ fn memcheck_run(bin: &std::path::Path, cases: &[CaseRec], tag: &str) -> Result<(
         .spawn()
         .map_err(|e| e.to_string());
     let out = match child {
-        Ok(c) => wait_budget(c, crate::engine::env_u64("VERIF_MEMCHECK_BUDGET_S", 600)),
+        Ok(c) => wait_budget(c, crate::engine::env_u64("VERIF_MEMCHECK_BUDGET_S", 1800)),
         Err(e) => Err(e),
     };
     let _ = std::fs::remove_file(&corpus);
